@@ -223,10 +223,14 @@ namespace vh {
          if ((q & l.const_qualifier()) != ipr::Qualifiers{}) r |= 1;
          if ((q & l.volatile_qualifier()) != ipr::Qualifiers{}) r |= 2;
          if ((q & l.restrict_qualifier()) != ipr::Qualifiers{}) r |= 4;
-         auto known = l.const_qualifier() | l.volatile_qualifier() | l.restrict_qualifier();
-         if ((q & known) != q) r |= 8;     // a bit outside the documented basis
+         // two extended qualifiers (the representation is as wide as a pointer; the basis uses its low bits)
+         if ((q & ext_qual(0)) != ipr::Qualifiers{}) r |= 8;
+         if ((q & ext_qual(1)) != ipr::Qualifiers{}) r |= 16;
+         auto known = l.const_qualifier() | l.volatile_qualifier() | l.restrict_qualifier() | ext_qual(0) | ext_qual(1);
+         if ((q & known) != q) r |= 32;    // a bit that nobody asked for
          return r;
       }
+      static ipr::Qualifiers ext_qual(int k) { return ipr::Qualifiers{std::uintptr_t{1} << (k == 0 ? 40 : 63)}; }
       ipr::Qualifiers quals(int bits) const
       {
          const ipr::Lexicon& l = lex;
@@ -234,6 +238,8 @@ namespace vh {
          if (bits & 1) q |= l.const_qualifier();
          if (bits & 2) q |= l.volatile_qualifier();
          if (bits & 4) q |= l.restrict_qualifier();
+         if (bits & 8) q |= ext_qual(0);
+         if (bits & 16) q |= ext_qual(1);
          return q;
       }
 
